@@ -25,10 +25,12 @@ from .. import labelkit as lk
 from ..core import Ctx, Report, pmap
 from ..tlc import MachineryError, fn_to_dict
 
+NET_TPLS = ["binet", "splitnet"]
 ALL_TPLS = ["uni", "bi", "split", "influx", "efflux", "rev", "homo", "dimer", "cof", "byst", "der", "chain"]
 
 CFG = """CONSTANTS
     Tpls = {tpls}
+    Ords = {ords}
     MaxNL = {maxnl}
     MaxL = {maxl}
     ShortMaps = {short}
@@ -48,8 +50,8 @@ CHECK_DEADLOCK FALSE
 """
 
 
-def cfg_text(tpls, maxnl, maxl, short=True, initall=False, mode="occurrence", emit=True) -> str:
-    return CFG.format(tpls="{" + ", ".join(f'"{t}"' for t in tpls) + "}", maxnl=maxnl, maxl=maxl,
+def cfg_text(tpls, maxnl, maxl, short=True, initall=False, mode="occurrence", emit=True, ords=("std",)) -> str:
+    return CFG.format(ords="{" + ", ".join(f'"{o}"' for o in ords) + "}", tpls="{" + ", ".join(f'"{t}"' for t in tpls) + "}", maxnl=maxnl, maxl=maxl,
                       short="TRUE" if short else "FALSE", initall="TRUE" if initall else "FALSE", mode=mode,
                       emit="TRUE" if emit else "FALSE", emitinv="INVARIANT Emit" if emit else "")
 
@@ -185,7 +187,7 @@ def doubled_case(scn: dict) -> bool:
 
 
 def case_key(scn: dict) -> str:
-    return json.dumps([scn["b"]["nl"], [[r["name"], r["map"]] for r in scn["b"]["rxns"]], scn.get("req")], sort_keys=True)
+    return json.dumps([scn.get("ord"), scn["b"]["nl"], [[r["name"], r["map"]] for r in scn["b"]["rxns"]], scn.get("req")], sort_keys=True)
 
 
 # ---- code -> spec ----------------------------------------------------------------------------------------
@@ -361,9 +363,9 @@ def tlc_families(ctx: Ctx, rep: Report, fams: list[dict]) -> list[dict]:
         sim, depth = f.pop("simulate", None), f.pop("depth", None)
         cfg = ctx.write_cfg(f"{name}.cfg", cfg_text(**f))
         extra = {"simulate": sim, "depth": depth or 60, "seed": ctx.seed} if sim else {}
-        return name, what, ctx.tlc("LabelExpandMC.tla", str(cfg), tag=name, workers=6, **extra)
+        return name, what, ctx.tlc("LabelExpandMC.tla", str(cfg), tag=name, workers=6, jvm=["-Xmx4g"], **extra)
 
-    with ThreadPoolExecutor(max_workers=len(fams)) as ex:
+    with ThreadPoolExecutor(max_workers=min(5, len(fams))) as ex:      # (each JVM is capped at 4 GB: several run side by side)
         results = list(ex.map(one, fams))
     out = []
     for name, what, res in results:
@@ -402,6 +404,14 @@ def run(ctx: Ctx) -> int:
                  tpls=["bi"], maxnl=2, maxl=2, short=False, initall=True),
             dict(name="deep", what="seeded simulation: all templates, counts 1..3, max(S,P)<=6",
                  tpls=ALL_TPLS, maxnl=3, maxl=6, simulate="num=30", depth=60),
+            # order of the compounds inside a stoichiometry dict and declaration order of variables / reactions as explicit
+            # dimensions (B + A -> C written against the variable order A, B, C: positions are counted along B first)
+            dict(name="orders", what="exhaustive: A+B->C, A->B+C, cofactor and chain templates in the presentation orders swap / rev / "
+                 "swaprev, label counts 1..2, all maps with max(S,P)<=3",
+                 tpls=["bi", "split", "cof", "chain"], maxnl=2, maxl=3, short=False, ords=("swap", "rev", "swaprev")),
+            dict(name="orders_net", what="exhaustive: merge and split inside a network (0->A, 0->B, A+B->C->0; 0->A->B+C, B->0, C->0) whose "
+                 "other reactions introduce the compounds first, all four presentation orders, label counts 1..2, all maps max(S,P)<=2",
+                 tpls=NET_TPLS, maxnl=2, maxl=2, short=False, ords=("std", "swap", "rev", "swaprev")),
         ]
     else:
         heavy = ["chain"]      # three mapped reactions: the maps multiply
@@ -416,6 +426,12 @@ def run(ctx: Ctx) -> int:
                  tpls=["bi"], maxnl=2, maxl=2, short=False, initall=True),
             dict(name="deep", what="seeded simulation: all templates, counts 1..3, max(S,P)<=6",
                  tpls=ALL_TPLS, maxnl=3, maxl=6, simulate="num=1000", depth=60),
+            dict(name="orders", what="exhaustive: every template except chain in the presentation orders swap / rev / swaprev, label "
+                 "counts 1..2, all maps with max(S,P)<=4",
+                 tpls=[t for t in ALL_TPLS if t not in heavy], maxnl=2, maxl=4, short=False, ords=("swap", "rev", "swaprev")),
+            dict(name="orders_net", what="exhaustive: merge and split inside a network whose other reactions introduce the compounds "
+                 "first, all four presentation orders, label counts 1..2, all maps max(S,P)<=3",
+                 tpls=NET_TPLS, maxnl=2, maxl=3, short=False, ords=("std", "swap", "rev", "swaprev")),
         ]
     scns = tlc_families(ctx, rep, fams)
     rep.exhaustive = True
@@ -435,8 +451,12 @@ def run(ctx: Ctx) -> int:
     n_dbl = sum(1 for s in scns if doubled_case(s))
     if n_dbl < 100:
         raise MachineryError(f"only {n_dbl} cases with a doubled compound that has >= 2 label positions")
+    n_ord = sum(1 for s in scns if s["outcome"] == "ok" and s.get("ord") in ("swap", "swaprev") and s["tpl"] in ("bi", "split", "binet", "splitnet"))
+    if n_ord < 100:
+        raise MachineryError(f"only {n_ord} merge/split cases whose compounds are written against the declaration order")
     rep.notes["cases"] = {"total": len(scns), "rejected_expected": n_rej, "doubled_multi_position": n_dbl,
-                          "by_template": {t: sum(1 for s in scns if s["tpl"] == t) for t in ALL_TPLS}}
+                          "merge_split_against_declaration_order": n_ord,
+                          "by_template": {t: sum(1 for s in scns if s["tpl"] == t) for t in ALL_TPLS + NET_TPLS}}
     # ---- binding self-test: one corrupted expected value must be noticed by the comparison ---------------------
     probe = next(s for s in scns if s["outcome"] == "ok" and s["tpl"] == "bi")
     probe_obs = observe(probe)
@@ -465,7 +485,7 @@ def run(ctx: Ctx) -> int:
         if nontrivial(scn):
             rep.distinct.add((scn["tpl"], case_key(scn)))
         if bad is not None:
-            slim = {"tpl": scn["tpl"], "b": scn["b"], "req": scn["req"], "outcome": scn["outcome"]}
+            slim = {"tpl": scn["tpl"], "ord": scn.get("ord"), "b": scn["b"], "req": scn["req"], "outcome": scn["outcome"]}
             for f in ("rxns", "init", "pts"):
                 if f in scn:
                     slim[f] = scn[f]
